@@ -19,6 +19,7 @@ ASSUMPTIONS = [
 ]
 SPEC = {
     'quick': [('K21', 'lend', 4),
+              ('K37', 'lend', 3),
               ('K0', 'liq', 4),
               ('K25', 'lend', 4),
               ('K24', 'liq', 3),
